@@ -238,6 +238,29 @@ def run_values(cases, tier, chk):
     return evals, len(cases)
 
 
+FMAX = {"float": Fraction(2 ** 24 - 1, 2 ** 24) * 2 ** 128, "double": Fraction(2 ** 53 - 1, 2 ** 53) * 2 ** 1024}
+
+
+def unrepresentable_float_factor(p):
+    """-> name of the floating rep that would have to hold a conversion factor beyond its largest finite value, or None"""
+    if p["ratio"] in ("irr", "dim-mismatch"):
+        return None
+    n, d = p["ratio"].split("/")
+    ratio = Fraction(int(n), int(d))
+    if p["form"] == "as_unit_only":
+        reps, ks = [p["r1"]], [ratio]
+    elif p["form"].startswith("mixed_"):
+        c = common_rep(p["r1"], p["r2"])
+        g = Fraction(math.gcd(ratio.numerator, ratio.denominator), ratio.denominator)
+        reps, ks = [c, c], [ratio / g, Fraction(1) / g]
+    else:
+        reps, ks = [p["r2"]], [ratio]
+    for rep, k in zip(reps, ks):
+        if rep in FMAX and (k > FMAX[rep] or (k != 0 and 1 / k > FMAX[rep])):
+            return rep
+    return None
+
+
 def run(chk, which="C06"):
     tier = chk.tier
     probes, value_cases = gen_probes(tier)
@@ -271,6 +294,15 @@ def run(chk, which="C06"):
             tag = f'{p["form"]}|{p["r1"]}->{p["r2"]}|ratio={p["ratio"]}'
             if p["expect"] == "accept" and r["rejected"]:
                 msg = (r["msgs"] or ["?"])[0]
+                # One defect, many spellings: when the rep that has to hold the conversion factor is floating and the factor exceeds
+                # its largest finite value, the policy (rightly, per the statement) says "permitted" but the conversion itself cannot
+                # compile; g++ even reports it while resolving overloads in an unevaluated operand.  The key names the rep that must
+                # hold the factor, the factor and the form - not the other rep or the configuration, which play no part.
+                frep = unrepresentable_float_factor(p)
+                if frep and p["form"] != "is_convertible" and p["form"] != "is_constructible" and p["form"] != "common_type":
+                    chk.violation(f'C06|unrepresentable_float_factor|form={p["form"]}|rep={frep}|ratio={p["ratio"]}',
+                                  msg=f'{cs}: {p["form"]} for Quantity<U*{p["ratio"]},{p["r1"]}> -> Quantity<U,{p["r2"]}>: the policy permits it (floating rep) but the conversion factor is not representable in {frep}, so the program is ill-formed: {msg[:160]}')
+                    continue
                 wrong_answer = "static assertion failed" in msg and "vf" in msg or "static_assert failed" in msg and "vf" in msg
                 what = "answers differently from the documented predicate" if wrong_answer else "is not total: asking is a hard error"
                 if p["form"] in ("copy_init", "as_unit_only") or p["form"].startswith("mixed_"):
